@@ -516,6 +516,24 @@ func qval(pairs [][2]string, key string) (string, bool) {
 	return "", false
 }
 
+// nameLenTags: coverage tags for topic / channel arguments at the name-length limit
+// (63, 64, 65 bytes, with or without the #ephemeral suffix).
+func nameLenTags(pairs [][2]string) []string {
+	var tags []string
+	for _, key := range []string{"topic", "channel"} {
+		v, ok := qval(pairs, key)
+		if !ok || len(v) < 63 || len(v) > 65 {
+			continue
+		}
+		eph := ""
+		if strings.HasSuffix(v, "#ephemeral") {
+			eph = "+eph"
+		}
+		tags = append(tags, fmt.Sprintf("%s-len=%d%s", key, len(v), eph))
+	}
+	return tags
+}
+
 func routeTag(path string) string {
 	if strings.HasPrefix(path, "/config/") {
 		return "/config/:opt"
@@ -582,6 +600,12 @@ func runReq(c *ctx, in Input) {
 	}
 	if !mr.qok {
 		tags = append(tags, "query=parse-error")
+	}
+	for _, t := range nameLenTags(mr.pairs) {
+		tags = append(tags, t, fmt.Sprintf("%s:%s:%d", t, routeTag(mr.path), obs.Status))
+	}
+	if strings.HasPrefix(mr.path, "/config/") && (in.Req.Method == "GET" || in.Req.Method == "PUT") {
+		tags = append(tags, fmt.Sprintf("config:%s:%s:%d", in.Req.Method, strings.TrimPrefix(mr.path, "/config/"), obs.Status))
 	}
 	c.o.Emit(lib.Case{Name: in.Name, Coq: coq, Input: in, Tags: tags, Nontrivial: true,
 		Obs: map[string]interface{}{"status": obs.Status, "token": obs.Token, "pre": pre, "post": post}})
@@ -857,6 +881,9 @@ func runPub(c *ctx, in Input) {
 	}
 	if len(he.defBody) > 0 {
 		tags = append(tags, "deferred=yes")
+	}
+	for _, t := range nameLenTags(mr.pairs) {
+		tags = append(tags, t, fmt.Sprintf("%s:%s:%d:tcp=%s", t, in.PubKind, obs.Status, tcode))
 	}
 	c.o.Emit(lib.Case{Name: in.Name, Coq: coq, Input: in, Tags: tags, Nontrivial: true,
 		Obs: map[string]interface{}{"status": obs.Status, "token": obs.Token, "tcp": tcode,
@@ -1729,6 +1756,116 @@ func genAdminMatrix(r *lib.Rand) []Input {
 	return ins
 }
 
+// genNameBoundary: every endpoint that takes a topic or channel name, with names of
+// exactly 1, 63, 64 (valid) and 65 (invalid) bytes, and 53 / 54 (valid) / 55 (invalid)
+// bytes + "#ephemeral" - as the topic and as the channel, on existing and on new objects,
+// over HTTP and (publishes) over TCP.  Fixed cases, present in every run.
+func genNameBoundary() []Input {
+	plain := func(n int) string { return strings.Repeat("b", n-1) + "Z" }
+	eph := func(n int) string { return strings.Repeat("d", n-1) + "." + "#ephemeral" }
+	names := []string{plain(63), plain(64), plain(65), eph(53), eph(54), eph(55), "a"}
+	valid := func(s string) bool { return len(s) <= 64 }
+	var ins []Input
+	k := 0
+	req := func(path, query string, pre []TopicSpec) {
+		ins = append(ins, Input{Kind: "req", Name: fmt.Sprintf("namelen-%d", k), Pre: pre,
+			Req: &ReqSpec{Method: "POST", Target: path + "?" + query, Framing: "none"}})
+		k++
+	}
+	pub := func(kind, target string, body []byte) {
+		fr := "cl"
+		if k%3 == 0 {
+			fr = "chunked"
+		}
+		ins = append(ins, Input{Kind: "pub", Name: fmt.Sprintf("namelen-%d", k), PubKind: kind,
+			Req: &ReqSpec{Method: "POST", Target: target, Framing: fr, Body: body}})
+		k++
+	}
+	for _, v := range names {
+		q := url.QueryEscape(v)
+		// the name as the topic: on a daemon that has it (valid names) / does not have it
+		var has []TopicSpec
+		if valid(v) {
+			has = []TopicSpec{{Name: v, Paused: true, Depth: 1, Chans: []ChanSpec{{Name: "c1", Depth: 2}}}, {Name: "other", Depth: 1}}
+		} else {
+			has = []TopicSpec{{Name: "other", Depth: 1}}
+		}
+		req("/topic/create", "topic="+q, []TopicSpec{{Name: "other", Depth: 1}})
+		for _, p := range []string{"/topic/create", "/topic/delete", "/topic/empty", "/topic/pause", "/topic/unpause"} {
+			req(p, "topic="+q, has)
+		}
+		for _, p := range []string{"/channel/create", "/channel/delete", "/channel/empty", "/channel/pause"} {
+			req(p, "topic="+q+"&channel=c1", has)
+		}
+		req("/channel/create", "topic="+q+"&channel=fresh", has)
+		// the name as the channel
+		var hasCh []TopicSpec
+		if valid(v) {
+			hasCh = []TopicSpec{{Name: "t1", Chans: []ChanSpec{{Name: v, Paused: true, Depth: 2}, {Name: "c2", Depth: 1}}}}
+		} else {
+			hasCh = []TopicSpec{{Name: "t1", Chans: []ChanSpec{{Name: "c2", Depth: 1}}}}
+		}
+		req("/channel/create", "topic=t1&channel="+q, []TopicSpec{{Name: "t1", Depth: 1}})
+		for _, p := range []string{"/channel/create", "/channel/delete", "/channel/empty", "/channel/pause", "/channel/unpause"} {
+			req(p, "topic=t1&channel="+q, hasCh)
+		}
+		// publishes under the name, each with its TCP twin
+		pub("pub", "/pub?topic="+q, []byte("x"))
+		pub("pub", "/pub?topic="+q+"&defer=5", []byte("later"))
+		pub("mpub-text", "/mpub?topic="+q, []byte("one\ntwo\n"))
+		var p bytes.Buffer
+		p.Write(be32(2))
+		p.Write(be32(1))
+		p.WriteByte('m')
+		p.Write(be32(2))
+		p.WriteString("nn")
+		pub("mpub-binary", "/mpub?topic="+q+"&binary=true", p.Bytes())
+	}
+	return ins
+}
+
+// genConfigMatrix: GET / PUT /config/:opt with every accepted and several refused values
+// (log levels in every case, JSON and non-JSON address lists, empty and oversize bodies,
+// unknown and read-only options) and /debug/setblockrate - fixed cases, present in every
+// run, so that "a valid value is accepted" is exercised for each of them.
+func genConfigMatrix() []Input {
+	var ins []Input
+	k := 0
+	add := func(method, target string, body []byte) {
+		rs := &ReqSpec{Method: method, Target: target, Framing: "none"}
+		if body != nil {
+			rs.Framing, rs.Body = "cl", body
+			if k%4 == 3 {
+				rs.Framing = "chunked"
+			}
+		}
+		ins = append(ins, Input{Kind: "req", Name: fmt.Sprintf("config-%d", k), Req: rs})
+		k++
+	}
+	for _, o := range []string{"log_level", "nsqlookupd_tcp_addresses", "max_msg_size", "mem_queue_size", "nosuch", "LOG_LEVEL"} {
+		add("GET", "/config/"+o, nil)
+	}
+	for _, v := range []string{"debug", "info", "warn", "error", "fatal", "DEBUG", "Info", "wARN", "Error", "FATAL", "loud", " info", "warning", "",
+		strings.Repeat("z", maxMsg), strings.Repeat("z", maxMsg+1)} {
+		add("PUT", "/config/log_level", []byte(v))
+	}
+	for _, v := range []string{"[]", "null", "[1]", "{", "\"x\"", ""} {
+		add("PUT", "/config/nsqlookupd_tcp_addresses", []byte(v))
+	}
+	add("PUT", "/config/max_msg_size", []byte("1024"))
+	add("PUT", "/config/nosuch", []byte("1"))
+	add("PUT", "/config/log_level", []byte("info")) // leave the daemon at its default level
+	for _, q := range []string{"rate=0", "rate=1", "rate=-1", "rate=%2B3", "rate=x", "rate=", "", "rate=99999999999999999999"} {
+		t := "/debug/setblockrate"
+		if q != "" {
+			t += "?" + q
+		}
+		add("PUT", t, nil)
+	}
+	add("PUT", "/debug/setblockrate?rate=0", nil)
+	return ins
+}
+
 func fillLines(total int, trailingNL bool, lineLen int) []byte {
 	// a text body of exactly [total] bytes made of lines of at most lineLen bytes
 	var b bytes.Buffer
@@ -1907,6 +2044,8 @@ func main() {
 	ins = append(ins, genRoutes(r.Fork(), *nroutes)...)
 	ins = append(ins, genTLS(r.Fork())...)
 	ins = append(ins, genAdminMatrix(r.Fork())...)
+	ins = append(ins, genNameBoundary()...)
+	ins = append(ins, genConfigMatrix()...)
 	ins = append(ins, genReqs(r.Fork(), *n)...)
 	ins = append(ins, genPubBoundary()...)
 	ins = append(ins, genPubs(r.Fork(), *n)...)
